@@ -62,6 +62,8 @@ func main() {
 		code = scenarioMultiListen()
 	case "multistamp":
 		code = scenarioMultiStamp()
+	case "concurrent":
+		code = scenarioConcurrent()
 	case "pintime":
 		code = scenarioPinTime()
 	default:
